@@ -8,10 +8,18 @@ rm -rf $S && mkdir -p $S && git -C /repo archive HEAD | tar -x -C $S
 cd $S && git init -q . 2>/dev/null && git apply --whitespace=nowarn "$PATCH" || { echo "PATCH DOES NOT APPLY"; rm -rf $S; exit 2; }
 echo "--- tests with the change:"
 (cd $S && /venv/bin/python -m pytest -q -p no:cacheprovider --timeout=900 --continue-on-collection-errors 2>&1 | tail -1)
+# demos that hard-code the path of the worktree they were written in are run there (WT=<worktree>)
+if [ -n "$WT" ]; then
+  echo "--- demo with the change (in its worktree $WT):"
+  (cd $WT && git apply --whitespace=nowarn "$PATCH" && PYTHONPATH=$WT /venv/bin/python "$DEMO" >/tmp/seed_demo_with.txt 2>&1; echo "exit=$?"; tail -2 /tmp/seed_demo_with.txt | cut -c1-200; git checkout -q -- . )
+  echo "--- demo on the unchanged tree (in its worktree):"
+  (cd $WT && PYTHONPATH=$WT /venv/bin/python "$DEMO" >/tmp/seed_demo_without.txt 2>&1; echo "exit=$?"; tail -1 /tmp/seed_demo_without.txt | cut -c1-200)
+else
 echo "--- demo with the change:"
 (cd $S && PYTHONPATH=$S /venv/bin/python "$DEMO" >/tmp/seed_demo_with.txt 2>&1; echo "exit=$?"; tail -2 /tmp/seed_demo_with.txt | cut -c1-200)
 echo "--- demo on the unchanged tree:"
 (cd /tmp && PYTHONPATH=/repo /venv/bin/python "$DEMO" >/tmp/seed_demo_without.txt 2>&1; echo "exit=$?"; tail -1 /tmp/seed_demo_without.txt | cut -c1-200)
+fi
 echo "--- ./check $PROP against the change:"
 cd /verif && ./check $PROP --repo $S --no-evidence "$@" 2>&1 | grep -E "^violation|^VIOLATION|^HARNESS|^KNOWN|runs=" | cut -c1-500
 rm -rf $S
